@@ -138,6 +138,8 @@ structure Pl where
   chans   : List Chan := []
   streams : List (UInt16 × InStream) := []
   acts    : List Act := []
+  /-- `dcep_reassembly`: DCEP messages being collected, per stream (absent = empty) -/
+  dcepBuf : List (UInt16 × Bytes) := []
 deriving DecidableEq, Repr, Inhabited
 
 structure Rx where
@@ -334,23 +336,24 @@ def transmitSack (s : Rx) : Option Sack × Rx :=
 
 /-- per `(sid, ssn)` pair: `advance_ssn_to`, `drain_ready`, deliver to the channel with that id -/
 def fwdStream (s : Pl) (p : UInt16 × UInt16) : Pl :=
-  match s.streams.find? (fun e => e.1 == p.1) with
-  | none => s
-  | some e =>
-    let r := (e.2.advanceSsnTo p.2).drainReady
-    let s1 := { s with streams := setStream s.streams p.1 r.1 }
-    if r.2.isEmpty then s1
-    else
-      match findChan s1.chans p.1 with
-      | some dc => { s1 with chans := setChan s1.chans (dc.emitAll r.2) }
-      | none => s1
+  -- `streams.entry(sid).or_insert_with(InboundStream::new)` (fix ec94f14: a stream that has delivered
+  -- nothing yet used to be skipped and then waited for SSN 0 forever)
+  let r := ((getStream s.streams p.1).advanceSsnTo p.2).drainReady
+  let s1 := { s with streams := setStream s.streams p.1 r.1 }
+  if r.2.isEmpty then s1
+  else
+    match findChan s1.chans p.1 with
+    | some dc => { s1 with chans := setChan s1.chans (dc.emitAll r.2) }
+    | none => s1
 
 /-- the part of `handle_forward_tsn` that moves the cumulative point: serial comparison, the
 receive queue keeps what is serially beyond it, every reassembly buffer is forgotten, the listed
 ordered streams skip ahead -/
 def forwardTo (s : Rx) (newCum : UInt32) (pairs : List (UInt16 × UInt16)) : Rx :=
   let pl1 := { s.pl with chans := s.pl.chans.map (fun c => { c with reasm := [] }) }
-  { s with cum := newCum, rq := s.rq.filter (fun e => tsnGt e.1 newCum),
+  -- the skipped chunks give their bytes back to the advertised window (fix b6750a0)
+  let skipped := ((s.rq.filter (fun e => !tsnGt e.1 newCum)).map (fun e => e.2.valueLen)).sum
+  { s with cum := newCum, rq := s.rq.filter (fun e => tsnGt e.1 newCum), usedRwnd := s.usedRwnd - skipped,
            pl := pairs.foldl fwdStream pl1 }
 
 /-- the drain at the end of `handle_forward_tsn`: chunks queued right behind the new cumulative
